@@ -948,14 +948,27 @@ func (g *Gen) ConstExpr() ast.Vertex {
 			e := g.ConstExpr()
 			g.feat("constexpr-unary")
 			switch g.intn(4, "constunary") {
+			// (cases 2 and 3 are the unary signs)
 			case 0:
 				return &ast.ExprBooleanNot{ExclamationTkn: g.ch('!'), Expr: g.prefixOperand(e, pNot)}
 			case 1:
 				return &ast.ExprBitwiseNot{TildaTkn: g.ch('~'), Expr: g.prefixOperand(e, pUnary)}
-			case 2:
-				return &ast.ExprUnaryPlus{PlusTkn: g.ch('+'), Expr: g.prefixOperand(e, pUnary)}
-			default:
-				return &ast.ExprUnaryMinus{MinusTkn: g.ch('-'), Expr: g.prefixOperand(e, pUnary)}
+			case 2, 3:
+				var u ast.Vertex
+				if g.flip("sign") {
+					u = &ast.ExprUnaryPlus{PlusTkn: g.ch('+'), Expr: g.prefixOperand(e, pUnary)}
+				} else {
+					u = &ast.ExprUnaryMinus{MinusTkn: g.ch('-'), Expr: g.prefixOperand(e, pUnary)}
+				}
+				if !g.O.PHP7 || g.O.Common {
+					// PHP 5's constant-expression grammar gives unary + and - the precedence of the
+					// binary operators (static_operation has no %prec): "+a * b" is "+(a * b)" there
+					// and "a * +b * c" is "a * +(b * c)". That grouping is PHP 5's own and is not
+					// shared with PHP 7, so the sign always travels in brackets
+					g.Excl["php5-constexpr-unary-sign"]++
+					return g.Brackets(u)
+				}
+				return u
 			}
 		case 4:
 			g.feat("constexpr-brackets")
